@@ -62,6 +62,38 @@ def opt_shapes_case(draw, n_inputs=3):
             stmts.append(M.ExprStmt(M.Assign(M.Index(M.Var("a0", at), M.Lit(1, INT, "1"), INT), "=", M.Lit(9, INT, "9"))))
             stmts.append(M.ExprStmt(M.Assign(M.Var("g0", INT), "=", M.Bin("+", M.Index(M.Var("ga", at), M.Lit(1, INT, "1"), INT),
                                                                           M.Index(M.Var("a0", at), M.Lit(1, INT, "1"), INT)))))
+    if draw(st.integers(0, 9)) < 4:
+        # an int-typed value stored into a float place (no conversion is written in the source) and immediately
+        # used as an operand of an arithmetic operator or comparison - and the mirror image (float value, int place
+        # is NOT generated: narrowing stores are outside the stated domain)
+        k = draw(st.sampled_from(["newlocal", "local", "global", "param"]))
+        ival = draw(st.sampled_from([M.Var("p0", INT), M.Lit(7, INT, "7"), M.Bin("+", M.Var("p0", INT), M.Lit(1, INT, "1")),
+                                     M.Var("g0", INT)]))
+        if k == "newlocal":
+            fv = M.Var(g.fresh("c"), FLOAT)
+            g.declare(fv.name, FLOAT)
+            stmts.append(M.Decl(FLOAT, fv.name, ival))
+        else:
+            if k == "local":
+                fv = M.Var(g.fresh("c"), FLOAT)
+                g.declare(fv.name, FLOAT)
+                stmts.append(M.Decl(FLOAT, fv.name))
+            else:
+                fv = M.Var("g1" if k == "global" else "p1", FLOAT)
+            stmts.append(M.ExprStmt(M.Assign(fv, "=", ival)))
+        two = M.Lit(2, INT, "2")
+        e = draw(st.sampled_from([M.Bin("/", fv, two), M.Bin("/", two, fv) if False else M.Bin("*", fv, two), M.Bin("/", fv, M.Lit(4.0, FLOAT, "4.0")),
+                                  M.Bin("-", fv, M.Lit(0.5, FLOAT, "0.5")), M.Bin("/", fv, M.Bin("+", M.Var("p0", INT), M.Lit(100, INT, "100")))]))
+        stmts.append(M.ExprStmt(M.Assign(M.Var("g1", FLOAT), "=", M.Bin("+", M.Var("g1", FLOAT), e)))
+                     if draw(st.booleans()) else M.ExprStmt(M.Assign(M.Var("g1", FLOAT), "=", e)))
+    if draw(st.integers(0, 9)) < 3:
+        # chains of float divisions / multiplications whose regrouping changes the last bit
+        fl = lambda v: M.Lit(v, FLOAT, M.spell(v, FLOAT))
+        x = draw(st.sampled_from([M.Var("p1", FLOAT), M.Var("g1", FLOAT), fl(1.0)]))
+        d1, d2 = draw(st.sampled_from([3.0, 7.0, 11.0, 0.3])), draw(st.sampled_from([11.0, 3.0, 49.0, 0.7]))
+        e = draw(st.sampled_from([M.Bin("/", M.Bin("/", x, fl(d1)), fl(d2)), M.Bin("*", M.Bin("/", x, fl(d1)), fl(d2)),
+                                  M.Bin("/", M.Bin("*", x, fl(d1)), fl(d2)), M.Bin("-", M.Bin("+", x, fl(d1)), fl(d2))]))
+        stmts.append(M.ExprStmt(M.Assign(M.Var("g1", FLOAT), "=", e)))
     n = draw(st.integers(1, 5))
     for _ in range(n):
         # target of the store
